@@ -400,7 +400,9 @@ class WSGITask(Task):
                         raise exc_info[1]
                     else:
                         # As per WSGI spec existing headers must be cleared
+                        # (and with them the length they announced)
                         self.response_headers = []
+                        self.content_length = None
                 finally:
                     exc_info = None
 
